@@ -73,3 +73,18 @@ Theorem C08_source_generate : forall f g so nd N,
   flat5 (run_for_each [] so f g None (pipe_of gen_generate nd) N) = generate_ N f None /\
   flat5 (run_for_each [] so f g None (pipe_of gen_boxed_generate nd) N) = generate_ N f None.
 Proof. exact (fun f g => src_generate_spec f g None). Qed.
+
+(* ---- T1: which trait methods are implemented (coq/gen/GenSigs.v gen_impl_methods) ---- *)
+From Coq Require Import String.
+From GA Require Import SigTie.
+From GAGen Require Import GenSigs.
+Local Open Scope string_scope.
+
+(* which of generate / inverted_zip / inverted_zip2 / map / zip / fold the array and the boxed array define themselves (regenerated): the boxed array only generate, everything else is the trait default over into_iter / from_iter *)
+Theorem C08_source_functional_methods :
+  methods_of "GenericSequence<T> for GenericArray<T,N>" = Some ["generate"; "inverted_zip"; "inverted_zip2"] /\
+  methods_of "FunctionalSequence<T> for GenericArray<T,N>" = Some ["map"; "zip"; "fold"] /\
+  methods_of "GenericSequence<T> for Box<GenericArray<T,N>>" = Some ["generate"] /\
+  methods_of "FunctionalSequence<T> for Box<GenericArray<T,N>>" = Some [].
+Proof. repeat split. Qed.
+
